@@ -445,3 +445,43 @@ MODULE_PROXIES['scipy.sparse'] = _ScipyProxy.sparse
 MODULE_PROXIES['scipy.linalg'] = _ScipyProxy.linalg
 MODULE_PROXIES['scipy.sparse.linalg'] = _SparseProxy.linalg
 FUNCTION_PROXIES['scipy.sparse.csgraph._traversal.connected_components'] = sym_connected_components
+
+
+def perron_contract(M):
+    """Contract for scipy.linalg.eig(M) when M = T.T for an irreducible row-stochastic T (so the right
+    eigenvectors of M are the left eigenvectors of T):  eigenvalues are represented by their real parts;
+    exactly one of them equals 1 and all others are strictly smaller; its eigenvector is c*pi with pi the
+    (unique, positive, normalised) stationary distribution and c an arbitrary non-zero scale; the output
+    order and all other eigenvectors are arbitrary.  Memoised on the structure of the argument."""
+    ctx = core.cur()
+    M = funcs._as_sarr(M)
+    n = M.shape[0]
+    key = ('eig',) + tuple(core.to_z3_real(c).get_id() if isinstance(c, SVal) else c for c in M.cells())
+    if key in ctx.memo:
+        vals, vecs = ctx.memo[key]
+        return vals.copy(), vecs.copy()
+    m = _raw(M)
+    p = core.fresh_int('eigpos', 0, n - 1)
+    lam = [core.fresh_real('eigval') for _ in range(n)]
+    for k in range(n):
+        ctx.add(z3.If(p.t == k, core.to_z3_real(lam[k]) == 1,
+                      z3.And(core.to_z3_real(lam[k]) < 1, core.to_z3_real(lam[k]) >= -1)))
+    pi = [core.fresh_real('pi') for _ in range(n)]
+    for x in pi:
+        ctx.add(core.to_z3_real(x) > 0)
+    ctx.add(core.to_z3_bool(sum(pi[1:], pi[0]) == 1))
+    for i in range(n):       # M.pi = pi
+        ctx.add(core.to_z3_bool(sum([m[i, j] * pi[j] for j in range(1, n)], m[i, 0] * pi[0]) == pi[i]))
+    c = core.fresh_real('eigscale')
+    ctx.add(core.to_z3_real(c) != 0)
+    V = _np.empty((n, n), dtype=object)
+    for i in range(n):
+        for k in range(n):
+            V[i, k] = core.ite(p == k, c * pi[i], core.fresh_real('eigvec'))
+    vals = funcs.np_array(lam, dtype=float)
+    vecs = V.view(SArr)
+    vecs.ldtype = _np.dtype(float)
+    ctx.memo[key] = (vals, vecs)
+    ctx.memo.setdefault('perron_pi', []).append(pi)
+    ctx.notes.append('stub:eig(perron contract)')
+    return vals.copy(), vecs.copy()
